@@ -1,8 +1,362 @@
 import PyPhysim.Model.Proto
-open PyPhysim.Proto
+import PyPhysim.Model.C10
+import PyPhysim.Model.C10Cache
+open PyPhysim.Proto PyPhysim.C10
 
--- stub: replaced when the C10 model is written
+/-!
+Line-protocol driver of the C10 model, instantiated at binary64.
+
+* `hist K <Hdiag> <op> <op> …` runs a history of the derived-quantity machine
+  (`Model/C10Cache.lean`, `Cfg.fixed`) with the matrix operations instantiated
+  by the formulas of `Model/C10.lean` (`fullF`, `eqChan`, `normalize`, `cT`) and
+  an own Gaussian elimination for the `np.linalg.solve` kernel.
+* `form …`, `cf …`, `mmse …`, `amwh …` evaluate the numeric formulas of
+  `Model/C10.lean` on given matrices (kernel results are inputs).
+
+A per-user array is `r x c = re,im,re,im,…` per user (`2x1=f..,f..`), users
+separated by `|`; every scalar is the decimal of its binary64 bit pattern
+prefixed `f`.
+-/
+
+/-- binary64 complex number -/
+structure CF where
+  re : Float
+  im : Float
+
+instance : Inhabited CF := ⟨⟨0, 0⟩⟩
+instance : Zero CF := ⟨⟨0, 0⟩⟩
+instance : One CF := ⟨⟨1, 0⟩⟩
+instance : Add CF := ⟨fun a b => ⟨a.re + b.re, a.im + b.im⟩⟩
+instance : Sub CF := ⟨fun a b => ⟨a.re - b.re, a.im - b.im⟩⟩
+instance : Mul CF := ⟨fun a b => ⟨a.re * b.re - a.im * b.im, a.re * b.im + a.im * b.re⟩⟩
+instance : Div CF := ⟨fun a b =>
+  let d := b.re * b.re + b.im * b.im
+  ⟨(a.re * b.re + a.im * b.im) / d, (a.im * b.re - a.re * b.im) / d⟩⟩
+instance : Conj CF := ⟨fun a => ⟨a.re, -a.im⟩⟩
+instance : RSqrt CF := ⟨fun a => ⟨Float.sqrt a.re, 0⟩⟩
+instance : AbsR CF := ⟨fun a => ⟨Float.sqrt (a.re * a.re + a.im * a.im), 0⟩⟩
+instance : OfNat CF 1000000 := ⟨⟨1000000.0, 0⟩⟩
+
+def CF.abs2 (a : CF) : Float := a.re * a.re + a.im * a.im
+def ofReal (x : Float) : CF := ⟨x, 0⟩
+
+/-- a matrix with run-time shape, row major -/
+structure DM where
+  r : Nat
+  c : Nat
+  d : Array CF
+
+instance : Inhabited DM := ⟨⟨0, 0, #[]⟩⟩
+
+def DM.mat (A : DM) : Mat CF A.r A.c := fun i j => A.d.getD (i.val * A.c + j.val) ⟨0, 0⟩
+
+def DM.ofMat {m n : Nat} (A : Mat CF m n) : DM :=
+  ⟨m, n, ((List.finRange m).flatMap (fun i => (List.finRange n).map (fun j => A i j))).toArray⟩
+
+/-- view with a prescribed shape (the caller has checked it) -/
+def DM.as (A : DM) (m n : Nat) : Mat CF m n := fun i j => A.d.getD (i.val * A.c + j.val) ⟨0, 0⟩
+
+def DM.mul (A B : DM) : Except PyErr DM :=
+  if A.c = B.r then .ok (DM.ofMat (matMul (A.as A.r A.c) (B.as A.c B.c))) else .error .ValueError
+
+def DM.herm (A : DM) : DM := DM.ofMat (cT A.mat)
+
+/-! ### `np.linalg.solve` : Gaussian elimination with partial pivoting -/
+
+def swapRows (M : Array (Array CF)) (i j : Nat) : Array (Array CF) :=
+  if i = j then M else
+    let ri := M.getD i #[]; let rj := M.getD j #[]
+    (M.set! i rj).set! j ri
+
+/-- solve `A X = B` (`A : n×n`, `B : n×c`); `none` = exactly singular -/
+def gaussSolve (n c : Nat) (A : Mat CF n n) (B : Mat CF n c) : Option (Array (Array CF)) := Id.run do
+  -- augmented rows
+  let mut M : Array (Array CF) := ((List.finRange n).map (fun i =>
+    (((List.finRange n).map (fun j => A i j)) ++ ((List.finRange c).map (fun j => B i j))).toArray)).toArray
+  let mut ok := true
+  for col in [0:n] do
+    -- pivot
+    let mut best := col
+    let mut bestv := ((M.getD col #[]).getD col ⟨0, 0⟩).abs2
+    for r in [col+1:n] do
+      let v := ((M.getD r #[]).getD col ⟨0, 0⟩).abs2
+      if v > bestv then
+        best := r
+        bestv := v
+    if bestv == 0.0 then
+      ok := false
+    else
+      M := swapRows M col best
+      let prow := M.getD col #[]
+      let p := prow.getD col ⟨0, 0⟩
+      for r in [0:n] do
+        if r != col then
+          let row := M.getD r #[]
+          let f := row.getD col ⟨0, 0⟩ / p
+          M := M.set! r ((Array.range (n + c)).map (fun j => row.getD j ⟨0, 0⟩ - f * prow.getD j ⟨0, 0⟩))
+  if !ok then return none
+  let X := (Array.range n).map (fun i =>
+    let row := M.getD i #[]
+    let p := row.getD i ⟨0, 0⟩
+    (Array.range c).map (fun j => row.getD (n + j) ⟨0, 0⟩ / p))
+  return some X
+
+def DM.ofRows (r c : Nat) (X : Array (Array CF)) : DM :=
+  ⟨r, c, ((List.range r).flatMap (fun i => (List.range c).map (fun j => (X.getD i #[]).getD j ⟨0, 0⟩))).toArray⟩
+
+/-- `np.linalg.solve(A, B)` with numpy's errors (`LinAlgError` is a `ValueError`) -/
+def DM.solve (A B : DM) : Except PyErr DM :=
+  if A.r = A.c ∧ A.r = B.r then
+    match gaussSolve A.r B.c (A.as A.r A.r) (B.as A.r B.c) with
+    | some X => .ok (DM.ofRows A.r B.c X)
+    | none => .error .ValueError
+  else .error .ValueError
+
+def solveFn {n s : Nat} (A : Mat CF n n) (B : Mat CF n s) : Mat CF n s :=
+  match gaussSolve n s A B with
+  | some X => fun i j => (X.getD i.val #[]).getD j.val ⟨0, 0⟩
+  | none => fun _ _ => ⟨0.0 / 0.0, 0.0 / 0.0⟩
+
+/-! ### the `Ops` of the machine at binary64 -/
+
+abbrev Arr := Array DM
+
+def zipM (f : DM → DM → Except PyErr DM) (X Y : Arr) : Except PyErr Arr :=
+  if X.size ≠ Y.size then .error .ValueError
+  else (List.range X.size).foldlM (fun acc k => do
+    let z ← f (X.getD k default) (Y.getD k default)
+    pure (acc.push z)) #[]
+
+/-- the machine operations for a solver whose direct channels are `Hd` -/
+def mkOps (Hd : Arr) : Ops Arr Float where
+  scale F P :=
+    if F.size ≠ P.length then .error .ValueError
+    else .ok ((List.range F.size).map (fun k =>
+      let A := F.getD k default
+      DM.ofMat (mscale A.mat (RSqrt.sqrt (ofReal (P.getD k 0.0)))))).toArray
+  herm X := X.map DM.herm
+  comp WH fF :=
+    if WH.size ≠ Hd.size ∨ fF.size ≠ Hd.size then .error .ValueError
+    else (List.range Hd.size).foldlM (fun acc k => do
+      let Y := WH.getD k default
+      let Hkk := Hd.getD k default
+      let f := fF.getD k default
+      if Y.c = Hkk.r ∧ Hkk.c = f.r ∧ f.c = Y.r then
+        -- `_calc_equivalent_channel` : `eqChan`
+        let Hieq := DM.ofMat (eqChan (Y.as Y.r Hkk.r) (Hkk.as Hkk.r f.r) (f.as f.r Y.r))
+        let Z ← DM.solve Hieq Y
+        pure (acc.push Z)
+      else throw .ValueError) #[]
+  normalize X := X.map (fun A => DM.ofMat (normalize A.mat))
+  ncols X := X.toList.map (fun A => A.c)
+  pos x := x > 0.0
+  one := 1.0
+  noneArr := #[]
+
+/-! ### parsing / printing -/
+
+def pairs : List Float → Option (List CF)
+  | [] => some []
+  | re :: im :: rest => (pairs rest).map (fun t => ⟨re, im⟩ :: t)
+  | _ => none
+
+def parseDM (s : String) : Option DM := do
+  match s.splitOn "=" with
+  | [shape, dat] =>
+    match shape.splitOn "x" with
+    | [r, c] =>
+      let r ← r.toNat?; let c ← c.toNat?
+      let fs ← parseFloatList? dat
+      let ps ← pairs fs
+      if ps.length = r * c then some ⟨r, c, ps.toArray⟩ else none
+    | _ => none
+  | _ => none
+
+def parseArr (s : String) : Option Arr :=
+  if s = "[]" then some #[] else ((s.splitOn "|").mapM parseDM).map List.toArray
+
+def parseArrO (s : String) : Option (Option Arr) :=
+  if s = "-" then some none else (parseArr s).map some
+
+def showC (z : CF) : String := showFloat z.re ++ "," ++ showFloat z.im
+
+def showDM (A : DM) : String :=
+  toString A.r ++ "x" ++ toString A.c ++ "=" ++ ",".intercalate (A.d.toList.map showC)
+
+def showArr (X : Arr) : String := if X.size = 0 then "[]" else "|".intercalate (X.toList.map showDM)
+
+def parsePArg (s : String) : Option (PArg Float) :=
+  if s = "n" then some .none
+  else if s.startsWith "s" then (parseFloat? (s.drop 1).toString).map .scalar
+  else if s.startsWith "v" then (parseFloatList? (s.drop 1).toString).map .vec
+  else none
+
+def parseNsArg (s : String) : Option NsArg :=
+  if s.startsWith "i" then ((s.drop 1).toString.toNat?).map .int
+  else if s.startsWith "l" then (parseNatList? (s.drop 1).toString).map .list
+  else none
+
+def parsePList (s : String) : Option (Option (List Float)) :=
+  if s = "-" then some none else (parseFloatList? s).map some
+
+def parseOp (tok : String) : Option (Op Arr Float) :=
+  match tok.splitOn ";" with
+  | ["setP", p] => (parsePArg p).map .setP
+  | ["rand", m, ns, p] => do
+      let m ← parseArr m; let ns ← parseNsArg ns; let p ← parsePArg p
+      pure (.randomizeF m ns p)
+  | ["setprec", f, ff, p] => do
+      let f ← parseArrO f; let ff ← parseArrO ff; let p ← parsePList p
+      pure (.setPrecoders f ff p)
+  | ["setfilt", wh, w] => do
+      let wh ← parseArrO wh; let w ← parseArrO w
+      pure (.setFilters wh w)
+  | ["solve", cf, ns, p, f, ff, filt, isH, nsl] => do
+      let ns ← parseNsArg ns; let p ← parsePArg p
+      let f ← parseArr f; let ff ← parseArrO ff; let filt ← parseArr filt
+      let nsl ← parseNatList? nsl
+      pure (.solve (cf = "1") ns p ⟨f, ff, filt, isH = "1", nsl⟩)
+  | ["clear"] => some .clear
+  | ["rF"] => some .readF
+  | ["rFF"] => some .readFullF
+  | ["rW"] => some .readW
+  | ["rWH"] => some .readWH
+  | ["rFWH"] => some .readFullWH
+  | ["rFW"] => some .readFullW
+  | ["rNs"] => some .readNs
+  | ["rP"] => some .readP
+  | _ => none
+
+def showOut : Out Arr Float → String
+  | .unit => "unit"
+  | .err e => "err;" ++ toString e
+  | .arr none => "none"
+  | .arr (some X) => "arr;" ++ showArr X
+  | .ns none => "ns;none"
+  | .ns (some l) => "ns;" ++ showList toString l
+  | .pow l => "pow;" ++ showList showFloat l
+
+/-! ### formulas on a whole system -/
+
+structure Sys where
+  K : Nat
+  d : Dims K
+  H : Chan CF d
+  F : Prec CF d
+  W : Filt CF d
+  C : Basis CF d
+  P : Fin K → CF
+
+def natAt (l : List Nat) (k : Nat) : Nat := l.getD k 0
+
+/-- build a system from parsed arrays (shapes are taken from the declared
+    antenna / stream counts; the harness sends conforming data) -/
+def mkSys (K : Nat) (nr nt ns : List Nat) (H F W C : Arr) (P : List Float) : Sys :=
+  let d : Dims K := ⟨fun k => natAt nr k.val, fun k => natAt nt k.val, fun k => natAt ns k.val⟩
+  { K := K, d := d,
+    H := fun k l => (H.getD (k.val * K + l.val) default).as _ _,
+    F := fun l => (F.getD l.val default).as _ _,
+    W := fun k => (W.getD k.val default).as _ _,
+    C := fun k => (C.getD k.val default).as _ _,
+    P := fun k => ofReal (P.getD k.val 0.0) }
+
+/-- materialise a family of matrices -/
+def famArr {K : Nat} {r c : Fin K → Nat} (X : (k : Fin K) → Mat CF (r k) (c k)) : Arr :=
+  ((List.finRange K).map (fun k => DM.ofMat (X k))).toArray
+
+def finOf (K : Nat) (k : Nat) : Option (Fin K) := if h : k < K then some ⟨k, h⟩ else none
+
 def handle : List String → String
+  | "hist" :: k :: hd :: ops => Id.run do
+      let some K := k.toNat? | return "bad-op"
+      let some Hd := parseArr hd | return "bad-op"
+      let some ops := ops.mapM parseOp | return "bad-op"
+      let r := run Cfg.fixed (mkOps Hd) K (State.init Arr Float) ops
+      return " ".intercalate (r.2.map showOut)
+  -- form K nr nt ns H F W C P noise idx  ->  fullF | Q_idx | Qrev_idx | mlcost | amcost | amF_idx | mmseSum_idx | mmseHU_idx | UkLhs_idx | UkRhs_idx
+  | ["form", k, nr, nt, ns, h, f, w, c, p, noise, idx] => Id.run do
+      let some K := k.toNat? | return "bad-op"
+      let some nr := parseNatList? nr | return "bad-op"
+      let some nt := parseNatList? nt | return "bad-op"
+      let some ns := parseNatList? ns | return "bad-op"
+      let some H := parseArr h | return "bad-op"
+      let some F := parseArr f | return "bad-op"
+      let some W := parseArr w | return "bad-op"
+      let some C := parseArr c | return "bad-op"
+      let some P := parseFloatList? p | return "bad-op"
+      let noiseO : Option CF := if noise = "-" then none else (parseFloat? noise).map ofReal
+      let nv : CF := noiseO.getD ⟨0, 0⟩
+      let some ix := idx.toNat? | return "bad-op"
+      let S := mkSys K nr nt ns H F W C P
+      let some i := finOf S.K ix | return "bad-op"
+      -- materialise full_F once
+      let fFa := famArr (fullF S.F S.P)
+      let fF : Prec CF S.d := fun l => (fFa.getD l.val default).as _ _
+      return "/".intercalate [
+        showArr fFa,
+        showDM (DM.ofMat (calcQn S.H fF noiseO i)),
+        showDM (DM.ofMat (calcQrev S.H S.W S.P i)),
+        showC (minLeakCost S.H fF noiseO S.W),
+        showC (altMinCost S.H fF S.C),
+        showDM (DM.ofMat (altMinFMat S.H S.C i)),
+        showDM (DM.ofMat (mmseSum S.H S.W i)),
+        showDM (DM.ofMat (mmseHU S.H S.W i)),
+        showDM (DM.ofMat (mmseUkLhs S.H fF nv i)),
+        showDM (DM.ofMat (mmseUkRhs S.H fF i))]
+  -- cf A B Cc G32 G23 H31 H21 F0  ->  E | F2' | F3' | normalised F1 F2 F3
+  | ["cf", a, b, cc, g32, g23, h31, h21, f0] => Id.run do
+      let some A := parseDM a | return "bad-op"
+      let some B := parseDM b | return "bad-op"
+      let some Cc := parseDM cc | return "bad-op"
+      let some G32 := parseDM g32 | return "bad-op"
+      let some G23 := parseDM g23 | return "bad-op"
+      let some H31 := parseDM h31 | return "bad-op"
+      let some H21 := parseDM h21 | return "bad-op"
+      let some F0 := parseDM f0 | return "bad-op"
+      let N := A.r; let s := F0.c
+      let F2 := DM.ofMat (cfChain (G32.as N N) (H31.as N N) (F0.as N s))
+      let F3 := DM.ofMat (cfChain (G23.as N N) (H21.as N N) (F0.as N s))
+      return "/".intercalate [
+        showDM (DM.ofMat (cfE (A.as N N) (B.as N N) (Cc.as N N))),
+        showDM F2, showDM F3,
+        showDM (DM.ofMat (normalize F0.mat)), showDM (DM.ofMat (normalize F2.mat)),
+        showDM (DM.ofMat (normalize F3.mat))]
+  -- cfw Hkl Fl -> A A^H
+  | ["cfw", hkl, fl] => Id.run do
+      let some Hkl := parseDM hkl | return "bad-op"
+      let some Fl := parseDM fl | return "bad-op"
+      return showDM (DM.ofMat (cfWMat (Hkl.as Hkl.r Hkl.r) (Fl.as Hkl.r Fl.c)))
+  -- mmse S HU P mu -> cost at 0 | Vi   (mu = the value returned by scipy's newton)
+  | ["mmse", s, hu, p, mu] => Id.run do
+      let some S := parseDM s | return "bad-op"
+      let some HU := parseDM hu | return "bad-op"
+      let some P := parseFloat? p | return "bad-op"
+      let some mu := parseFloat? mu | return "bad-op"
+      let n := S.r; let c := HU.c
+      let Sm := S.as n n; let HUm := HU.as n c
+      let HU' := DM.ofMat (mdiv HUm (frobNorm HUm))
+      let S' := DM.ofMat (mdiv Sm (frobNorm HUm))
+      let V0 := DM.ofMat (solveFn (mmseLhs (S'.as n n) 0) (HU'.as n c))
+      let Vi := DM.ofMat (mmseVi (fun (z : CF) => z.re ≤ 0.0) solveFn (fun _ _ _ => ofReal mu) Sm HUm (ofReal P))
+      return "/".intercalate [showC (mmseCost (V0.as n c) (ofReal P)), showDM Vi]
+  -- amwh a b n G HF C -> W_H rows | hstack
+  | ["amwh", a, b, g, hf, c] => Id.run do
+      let some a := a.toNat? | return "bad-op"
+      let some b := b.toNat? | return "bad-op"
+      let some G := parseDM g | return "bad-op"
+      let some HF := parseDM hf | return "bad-op"
+      let some C := parseDM c | return "bad-op"
+      let n := G.c
+      return "/".intercalate [
+        showDM (DM.ofMat (altMinWH (a := a) (b := b) (G.as (a + b) n))),
+        showDM (DM.ofMat (hstack (HF.as n a) (C.as n b)))]
+  -- store normalizeV V -> what the min-leakage solver stores | its Frobenius norm | assertion holds
+  | ["store", nv, v] => Id.run do
+      let some V := parseDM v | return "bad-op"
+      let X := DM.ofMat (minLeakStore (nv = "1") V.mat)
+      let nrm := (frobNorm X.mat).re
+      return "/".intercalate [showDM X, showFloat nrm,
+        if nrm - 1.0 < (assertTol : CF).re then "assert-ok" else "AssertionError"]
   | _ => "bad-op"
 
 def main : IO Unit := runDriver handle
